@@ -11,7 +11,6 @@ import (
 	"regexp"
 	"sort"
 	"strings"
-	"sync"
 	"time"
 )
 
@@ -21,7 +20,23 @@ var mangleRe = regexp.MustCompile(`[^A-Za-z0-9]+`)
 
 func shortQual(p *types.Package) string { return p.Name() }
 
-func typeKey(t types.Type) string { return types.TypeString(t, shortQual) }
+var aliasRe = regexp.MustCompile(`\b(byte|rune|any)\b`)
+
+// typeKey: canonical text of a type (predeclared aliases resolved, so []byte and []uint8 share a region).
+func typeKey(t types.Type) string {
+	s := types.TypeString(t, shortQual)
+	return aliasRe.ReplaceAllStringFunc(s, func(m string) string {
+		switch m {
+		case "byte":
+			return "uint8"
+		case "rune":
+			return "int32"
+		case "any":
+			return "interface{}"
+		}
+		return m
+	})
+}
 
 func mangle(s string) string {
 	s = strings.ReplaceAll(s, "*", "P")
@@ -147,6 +162,7 @@ const smtPrelude = `(set-option :produce-models true)
 (define-fun nil_slice () Slice (mk-slice 0 0 0 0))
 (declare-fun at (Slice Int) Int)
 (assert (forall ((s Slice) (i Int)) (! (= (at s i) (+ (s-off s) i)) :pattern ((at s i)))))
+(declare-fun rtype (Int) Int)
 (declare-fun itrig (Int) Bool)
 (declare-fun itrig2 (Int) Bool)
 (assert (forall ((i Int)) (! (and (itrig i) (itrig2 (- i 1)) (itrig2 (+ i 1))) :pattern ((itrig i)))))
@@ -194,8 +210,8 @@ var solvers = []solverSpec{
 	{"z3", func(f string, t int) []string { return []string{"z3", fmt.Sprintf("-T:%d", t), f} }},
 }
 
-func runSolver(sp solverSpec, file string, timeoutS int) (string, string, float64) {
-	ctx, cancel := context.WithTimeout(context.Background(), time.Duration(timeoutS+3)*time.Second)
+func runSolver(ctx context.Context, sp solverSpec, file string, timeoutS int) (string, string, float64) {
+	ctx, cancel := context.WithTimeout(ctx, time.Duration(timeoutS+3)*time.Second)
 	defer cancel()
 	args := sp.args(file, timeoutS)
 	cmd := exec.CommandContext(ctx, args[0], args[1:]...)
@@ -219,49 +235,39 @@ func runSolver(sp solverSpec, file string, timeoutS int) (string, string, float6
 	return "error", o, el
 }
 
-// solve runs the query: z3-new first, then (if undecided) cvc5 and old z3 in parallel.
+// solve races the three back ends on one query; the first `unsat` (or a `sat` from z3-new) wins and
+// the others are killed. All undecided => the most informative answer (sat > unknown > timeout > error).
 func solve(file string, timeoutS int) SolveResult {
 	res := SolveResult{Outputs: map[string]string{}}
-	st, out, el := runSolver(solvers[0], file, timeoutS)
-	res.Outputs[solvers[0].name] = truncate(out, 4000)
-	res.Time += el
-	if st == "unsat" || st == "sat" {
-		res.Status, res.Solver, res.Output = st, solvers[0].name, out
-		if st == "sat" {
-			res.Model = out
-		}
-		return res
-	}
-	first := st
-	var wg sync.WaitGroup
 	type r struct {
 		st, out string
 		el      float64
 		name    string
 	}
-	ch := make(chan r, 2)
-	for _, sp := range solvers[1:] {
-		wg.Add(1)
+	ctx, cancel := context.WithCancel(context.Background())
+	defer cancel()
+	ch := make(chan r, len(solvers))
+	for _, sp := range solvers {
 		go func(sp solverSpec) {
-			defer wg.Done()
-			st, out, el := runSolver(sp, file, timeoutS)
+			st, out, el := runSolver(ctx, sp, file, timeoutS)
 			ch <- r{st, out, el, sp.name}
 		}(sp)
 	}
-	wg.Wait()
-	close(ch)
-	best := r{st: first, name: solvers[0].name, out: out}
-	for x := range ch {
+	rank := map[string]int{"unsat": 5, "sat": 4, "unknown": 3, "timeout": 2, "error": 1, "": 0}
+	var best r
+	start := time.Now()
+	for i := 0; i < len(solvers); i++ {
+		x := <-ch
 		res.Outputs[x.name] = truncate(x.out, 4000)
-		if x.el > 0 {
-			res.Time += x.el
+		if rank[x.st] > rank[best.st] {
+			best = x
 		}
-		if x.st == "unsat" {
-			best = x
-		} else if x.st == "sat" && best.st != "unsat" {
-			best = x
+		if x.st == "unsat" || (x.st == "sat" && x.name == "z3-new") {
+			break
 		}
 	}
+	cancel()
+	res.Time = time.Since(start).Seconds()
 	res.Status, res.Solver, res.Output = best.st, best.name, best.out
 	if best.st == "sat" {
 		res.Model = best.out
